@@ -1,6 +1,7 @@
 import Marwood.Vm.RunLoop
 import Marwood.Lemmas.SimRefl
 import Marwood.Lemmas.SimObs
+import Marwood.Lemmas.GoodDemo
 /-!
 # C13 — sliced execution is equivalent to uninterrupted execution
 
@@ -364,5 +365,93 @@ theorem failingExt_laws : ExtLaws failingExt :=
    fun _ _ _ _ _ _ _ _ _ _ _ _ => .err⟩
 
 end Concrete
+
+/-! ## T13.3 without `Safe`: the invariant is proved, the hypothesis is about the initial state
+
+`Safe m s0` (every reachable state is `Good`) is a theorem (`Lemmas/GoodMain.lean`: `safe_of_good`, from
+`good_step` — one lemma per opcode for the heap clauses, the roots clause read off the simulation lemma — and
+`good_gc`) given
+
+* `GoodI s0` of the **initial** state: `WFHeap` of the erased heap, the kind discipline `Plain`, the code
+  discipline of every lambda object (`NoIofArg`; `MOV` / `MOVIMM` never address a heap cell directly and load
+  values), the environment discipline (slots are values or one-level pointers to value slots), allocated
+  roots, a value in `acc`;
+* `ExtGood ext` — the law of the non-modelled parameters for this invariant (next to `ExtLaws ext`);
+* `SizeBounded m s0` — every reachable heap has at most `2^62` cells. This is the ONE remaining size
+  hypothesis; it is not an invariant (a run can allocate without bound) but a physical fact;
+* `StackDiscAlong m s0` — the frame discipline of the current instruction in every reachable state
+  (bp-relative reads at or below `sp`, a complete frame at RET / TCALL, and the stack cells an instruction
+  consumes as values are values, not frame-header cells). A consequence of WF-stack for verified code once
+  the verifier types bp-relative sources and temporaries (C04/C05); a named hypothesis here.
+-/
+section ConcreteInv
+open Marwood.Lemmas.Sim Marwood.Lemmas.Good Marwood.Vm.Concrete
+
+theorem failingExt_good : ExtGood failingExt :=
+  ⟨fun _ _ _ _ _ _ _ h => (by cases h), fun _ _ _ _ _ _ h => (by cases h), fun _ _ _ _ _ _ _ h => (by cases h)⟩
+
+/-- **T13.3 for the concrete machine, hypothesis on the initial state only.** If the uninterrupted evaluation
+    reaches HALT after `k` instructions, then for every sequence of positive budgets whose sum reaches `k` the
+    sliced evaluation reaches HALT too and the datum read out of `acc` is the same. -/
+theorem sliced_value_eq_uninterrupted (ext : ExtOps) (force : Bool) (o : ExtLaws ext) (eg : ExtGood ext)
+    (s0 : St CHeap) (g0 : GoodI s0) (sb : SizeBounded (machine ext force) s0)
+    (sd : StackDiscAlong (machine ext force) s0) (k : Nat) (t' : St CHeap)
+    (hk : pureN (machine ext force) k s0 = .done t')
+    (bs : List Nat) (hpos : ∀ b ∈ bs, 1 ≤ b) (hsum : k ≤ bs.sum) (fuel : Nat) :
+    ∃ s1 s2, run (machine ext force) k s0 = .done s1 ∧ runSliced (machine ext force) bs s0 = .done s2 ∧
+      resultObs fuel s1 = resultObs fuel s2 :=
+  sliced_value_eq_uninterrupted_partial ext force o s0 (safe_of_good force o eg g0 sb sd) k t' hk bs hpos hsum fuel
+
+/-- the same for an evaluation that fails: the same failure, `Sim`-related states -/
+theorem sliced_error_eq_uninterrupted (ext : ExtOps) (force : Bool) (o : ExtLaws ext) (eg : ExtGood ext)
+    (s0 : St CHeap) (g0 : GoodI s0) (sb : SizeBounded (machine ext force) s0)
+    (sd : StackDiscAlong (machine ext force) s0) (k : Nat) (e : Fault) (t' : St CHeap)
+    (hk : pureN (machine ext force) k s0 = .error e t')
+    (bs : List Nat) (hpos : ∀ b ∈ bs, 1 ≤ b) (hsum : k ≤ bs.sum) :
+    ∃ s1 s2, run (machine ext force) k s0 = .error e s1 ∧ runSliced (machine ext force) bs s0 = .error e s2 ∧
+      R (machine ext force) s1 t' ∧ R (machine ext force) s2 t' := by
+  have hs := safe_of_good force o eg g0 sb sd
+  have hT := gcTransparent_concrete_partial ext force o
+  obtain ⟨s1, h1, hr1⟩ := (run_pureN _ _ hT k 0 s0 s0 (R_refl _ hs)).2 e t' hk
+  have h2 := runSliced_pureN _ _ hT bs hpos s0 s0 (R_refl _ hs)
+  rw [pureN_error_mono _ k bs.sum s0 t' e hk hsum] at h2
+  generalize hrs : runSliced (machine ext force) bs s0 = r at h2
+  cases h2 with
+  | error h => exact ⟨s1, _, h1, rfl, hr1, h⟩
+
+/-- … and the hypothesis is one about the VM **between** evaluations: an idle good machine (registers reset,
+    stack wiped) on which `prepare_eval` compiled the form `d` (law `CompGood` of the compiler) -/
+theorem sliced_value_eq_uninterrupted_eval (ext : ExtOps) (force : Bool) (o : ExtLaws ext) (eg : ExtGood ext)
+    (comp : CHeap → VCell → Outcome (CHeap × VCell)) (cg : CompGood comp)
+    (s : St CHeap) (g : GoodI s) (hacc : s.acc = .undefined) (hep : Heap.Sentinel s.ep)
+    (hst : ∀ c ∈ s.stack.cells, c = VCell.undefined) (d : VCell) (hd : addrFree d = true)
+    (s0 : St CHeap) (hp : prepareEval comp s d = .ok s0) (sb : SizeBounded (machine ext force) s0)
+    (sd : StackDiscAlong (machine ext force) s0) (k : Nat) (t' : St CHeap)
+    (hk : pureN (machine ext force) k s0 = .done t')
+    (bs : List Nat) (hpos : ∀ b ∈ bs, 1 ≤ b) (hsum : k ≤ bs.sum) (fuel : Nat) :
+    ∃ s1 s2, run (machine ext force) k s0 = .done s1 ∧ runSliced (machine ext force) bs s0 = .done s2 ∧
+      resultObs fuel s1 = resultObs fuel s2 :=
+  sliced_value_eq_uninterrupted ext force o eg s0
+    (prepare_goodI cg g hacc hep hst hd hp (sb s0 (.refl s0))) sb sd k t' hk bs hpos hsum fuel
+
+/-! ### non-vacuity: the program `HALT` on a well-formed heap (Lemmas/GoodDemo.lean) -/
+
+open Marwood.Lemmas.Good.Demo in
+example : GoodI (sHalt 0) ∧ SizeBounded (machine failingExt false) (sHalt 0) ∧
+    StackDiscAlong (machine failingExt false) (sHalt 0) ∧ ExtLaws failingExt ∧ ExtGood failingExt :=
+  ⟨sHalt_goodI 0, sHalt_sizeBounded _, sHalt_discAlong _, failingExt_laws, failingExt_good⟩
+
+open Marwood.Lemmas.Good.Demo in
+/-- every slicing of the one-instruction evaluation, through the theorem -/
+example (bs : List Nat) (hpos : ∀ b ∈ bs, 1 ≤ b) (hsum : 1 ≤ bs.sum) :
+    ∃ s1 s2, run (machine failingExt false) 1 (sHalt 0) = .done s1 ∧
+      runSliced (machine failingExt false) bs (sHalt 0) = .done s2 ∧ resultObs 5 s1 = resultObs 5 s2 :=
+  sliced_value_eq_uninterrupted failingExt false failingExt_laws failingExt_good (sHalt 0) (sHalt_goodI 0)
+    (sHalt_sizeBounded _) (sHalt_discAlong _) 1 (sHalt 1) rfl bs hpos hsum 5
+
+/-- a compiler that always fails satisfies the law -/
+example : CompGood (fun _ _ => .err .invalidSyntax) := ⟨fun _ _ _ _ _ _ _ h => (by cases h)⟩
+
+end ConcreteInv
 
 end Marwood.Proofs.C13
